@@ -91,6 +91,9 @@ class VTask(Task):
             outputs[k] = [f"{ref}.{k}@{it}#{od}"]
         for k, v in (beh.get("raw") or {}).items():
             outputs[k] = v
+        # outputs that differ per loop iteration (absent iteration = nothing produced)
+        for k, v in ((beh.get("raw_by_iter") or {}).get(str(it)) or {}).items():
+            outputs[k] = v
         ctx: dict[str, Any] = {}
         for k in beh.get("cout", []) or []:
             ctx[k] = f"{ref}.{k}@{it}#{od}"
